@@ -11,6 +11,9 @@ Case (driver "create"):
              {"form": "unix", "virt": 80, "path": "/run/x.sock"} | {"form": "ip", "virt": 80, "target": "10.0.0.1:81"} |
              {"form": "str", "virt": 80, "target": "127.0.0.1:81" | "unix:/p"}],
    "free": [port, ...],                                   what the reactor hands out for "int" forms
+   "torconf": null | {"HiddenServiceNonAnonymousMode": 0|1, "HiddenServiceSingleHopMode": 0|1},
+                                                          optional: options the Tor behind the bootstrapped TorConfig
+                                                          knows (config/names + GETCONF); null = it lists none of them
    "reply": {"n": int, "key_anyway": bool, "tokens": [blob, ...]}}   how the server answers
 
 The server (vlib.onionref.OnionTor) decodes the ADD_ONION line with the independent decoder and
@@ -35,6 +38,7 @@ LEVEL = "exploration"
 RULE = ("Option product version {2,3} x key {none, DISCARD, bare blob, type-prefixed blob, wrong-type prefix, "
         "blob with CR/LF} x detach x single_hop x auth {none, AuthBasic with 0..3 named clients with/without "
         "tokens} x 1..3 port mappings (int, (int,int), (int,'unix:/p'), (int,'ip:port'), 'virt target' string) "
+        "x what the bootstrapped TorConfig knows about Tor's single-hop options {not listed, 0/1 x 0/1} "
         "through EphemeralOnionService.create / EphemeralAuthenticatedOnionService.create / "
         "Tor.create_onion_service over the real control protocol; the ADD_ONION / DEL_ONION lines are decoded by "
         "an independent control-spec decoder; Hypothesis draws blobs, names, ports and reply contents, a fixed "
@@ -50,6 +54,7 @@ ASSUMPTIONS = [
     "'rejected' for CR/LF key material = the create() Deferred fails (any exception) and no line starting with ADD_ONION reaches the transport",
     "a key Tor generated may be retained with or without its 'TYPE:' prefix",
     "the server sends an unrequested PrivateKey line only together with DiscardPK (the custody clause); v3+BasicAuth is answered 512 as Tor does, so only the wire clauses are checked there",
+    "part of the cases run against a Tor whose config/names lists HiddenServiceNonAnonymousMode / HiddenServiceSingleHopMode (Boolean, GETCONF 0 or 1) so that the bootstrapped TorConfig knows them; the requested flags must be sent whatever the library knows about Tor's configuration (Tor, not txtorcon, decides whether NonAnonymous is acceptable)",
     "whether create() completes at all is C15's subject: when it stays pending after the descriptor upload the service object is taken from config.EphemeralOnionServices and remove() is skipped",
 ]
 
@@ -223,7 +228,12 @@ def drive_create(case):
         state["sent_key"] = send_key
         return onionref.add_onion_reply(sid, send_key, toks)
 
-    tor = onionref.OnionTor(add_onion=answer)
+    tconf = case.get("torconf")
+    conf = None
+    if tconf:
+        conf = dict((k, ("Boolean", str(v))) for k, v in sorted(tconf.items()))
+        conf["SocksPort"] = ("LineList", "9050")
+    tor = onionref.OnionTor(add_onion=answer, conf=conf)
     reactor = onionref.FakePortReactor(case["free"])
     pkey = None
     if discard:
@@ -399,6 +409,13 @@ def drive_create(case):
         res.label("discard+key-sent-anyway")
     if discard and auth is not None:
         res.label("discard+auth")
+    if tconf:
+        res.label("torconf:nonanon=%d,singlehop=%d" % (tconf.get("HiddenServiceNonAnonymousMode", -1),
+                                                       tconf.get("HiddenServiceSingleHopMode", -1)))
+        if case["single_hop"]:
+            res.label("single_hop-requested+Tor-config-known")
+    else:
+        res.label("torconf:unknown-to-Tor")
     return res
 
 
@@ -469,6 +486,8 @@ def cases(draw):
         "auth": auth,
         "ports": draw(st.lists(port_specs(), min_size=1, max_size=3)),
         "free": draw(st.lists(st.integers(1024, 65535), min_size=6, max_size=6)),
+        "torconf": draw(st.one_of(st.none(), st.fixed_dictionaries({
+            "HiddenServiceNonAnonymousMode": st.integers(0, 1), "HiddenServiceSingleHopMode": st.integers(0, 1)}))),
         "reply": {"n": draw(st.integers(0, 50)), "key_anyway": draw(st.booleans()),
                   "tokens": draw(st.lists(st.text(alphabet=B64, min_size=22, max_size=22), max_size=3))},
     }
@@ -513,6 +532,10 @@ def grid_cases():
             yield {"api": api, "version": version, "key": {"kind": kind, "text": text},
                    "detach": detach, "single_hop": single, "auth": auth, "ports": ports,
                    "free": [40001, 40002, 40003, 40004, 40005, 40006],
+                   "torconf": [None, {"HiddenServiceNonAnonymousMode": 0, "HiddenServiceSingleHopMode": 0},
+                               {"HiddenServiceNonAnonymousMode": 1, "HiddenServiceSingleHopMode": 1},
+                               {"HiddenServiceNonAnonymousMode": 0, "HiddenServiceSingleHopMode": 1},
+                               {"HiddenServiceNonAnonymousMode": 1, "HiddenServiceSingleHopMode": 0}][n % 5],
                    "reply": {"n": n, "key_anyway": n % 3 != 0,
                              "tokens": ["dG9rMTExMTExMTExMTExMT", "dG9rMjIyMjIyMjIyMjIyMj"]}}
 
@@ -648,6 +671,9 @@ MUTANTS = [
     ("client-token-dropped", "txtorcon/onion.py",
      "                cmd += ' ClientAuth={}:{}'.format(client_name, keyblob)",
      "                cmd += ' ClientAuth={}'.format(client_name)"),
+    ("nonanonymous-dropped-when-tor-config-says-0", "txtorcon/onion.py",
+     "    if onion._single_hop:\n        flags.append('NonAnonymous')",
+     "    if onion._single_hop and config.config.get('HiddenServiceNonAnonymousMode', 1):\n        flags.append('NonAnonymous')"),
     ("single-hop-flag-dropped", "txtorcon/onion.py",
      "    if onion._single_hop:\n        flags.append('NonAnonymous')",
      "    if onion._single_hop and not onion._detach:\n        flags.append('NonAnonymous')"),
